@@ -184,8 +184,19 @@ def s_registerTask(I, recv, args, kw):
 
 
 def s_stop(I, recv, args, kw):
-    """contract of Manager.stop(code=None): raises SystemExit(code) iff code is not None (see Manager.stop under C08)"""
-    log(I, 'STOPS').append(tuple(args))
+    """contract of Manager.stop(code=None), as proved on its body under C08: on a manager that is not running it has NO effect (it
+    returns normally, whatever the code); otherwise the flag is cleared, `stopped` is fired and SystemExit(code) is raised iff a code
+    was given"""
+    self = I.local('self')
+    if '_running' in I.st.fields:
+        log(I, 'STOPS').append(tuple(args))
+        if not I.branch(I.fz(self, '_running'), 'stop_finds_manager_running'):
+            log(I, 'STOP_NOOP').append(tuple(args))
+            return NONE
+        if '_running' not in (I.st.frame_guard or ()):
+            I.st.write_field(self.t, '_running', VBool(z3.BoolVal(False)))
+    else:
+        log(I, 'STOPS').append(tuple(args))
     if args:
         code = lib.unopt(I, args[0])
         if not isinstance(code, VNone):
@@ -878,7 +889,14 @@ def c08_iteration(I, how):
         I.oblige('keyboard_interrupt_stops_the_manager', z3.BoolVal(len(stops) == 1 and len(stops[0]) == 0))
     elif oc == 2:
         cover(I, 'sysexit')
-        I.oblige('system_exit_stops_the_manager_with_its_code', z3.BoolVal(len(stops) == 1 and len(stops[0]) == 1 and stops[0][0] is g['EXIT_CODE']))
+        I.oblige('system_exit_stops_the_manager_with_its_code', z3.BoolVal(len(stops) >= 1 and len(stops[0]) >= 1 and stops[0][0] is g['EXIT_CODE']))
+        # from the property: "an exit code ... carried by SystemExit propagates to the caller of run()".  The iteration ended normally
+        # (we are here), so the SystemExit of the handler was absorbed: allowed only for SystemExit(None)
+        code = g['EXIT_CODE']
+        I.oblige('exit_code_of_the_handler_propagates', core.any_is_none(code.t),
+                 detail='a handler raised SystemExit(code) with a code that is not None but the dispatcher went on normally: the exit '
+                        'code never reaches the caller of run() (stop() has no effect on a manager that is not running any more, e.g. '
+                        'when the handler itself called stop(code))')
     else:
         I.oblige('no_stop_otherwise', z3.BoolVal(len(stops) == 0))
 
